@@ -169,7 +169,7 @@ def GenSt.stepRandom (s : GenSt) (p : Prof) : GenSt :=
 def GenSt.drain (s : GenSt) : GenSt :=
   let ids := (R.keys s.r s.cap)
   let s := ids.foldl (fun (s : GenSt) v => if v ∈ s.r.ids then s.emit (.data v) else s) s
-  { s with lines := s.lines.push s!"observe {s.h}" }
+  { s with lines := (s.lines.push s!"observe {s.h}").push s!"snap {s.h}" }
 
 def GenSt.start (rng : Rng) (n cap : Nat) : GenSt :=
   { rng, n, cap, labels := labelPool n, lines := #["reset", s!"new g0 {n} {cap}"] }
